@@ -708,7 +708,7 @@ pub fn c02(thorough: bool, replay: Option<String>) -> i32 {
         };
         let mut builds = vec![];
         for c in CONFIGS.iter() {
-            let o = ModernOpts { optimize: c.0, frontend_opt: c.1, post_opt: c.2, search: vec!["/repo/resources/tests".into(), "/repo/resources/tests/bridge-includes".into(), "/repo/resources/tests/strict/includes".into(), "/repo/resources/tests/lib".into(), std::path::Path::new(path).parent().map(|p| p.to_string_lossy().to_string()).unwrap_or_default()], filename: path.clone() };
+            let o = ModernOpts { optimize: c.0, frontend_opt: c.1, post_opt: c.2, search: crate::subject::repo_search_paths().into_iter().chain(std::iter::once(std::path::Path::new(path).parent().map(|p| p.to_string_lossy().to_string()).unwrap_or_default())).collect(), filename: path.clone() };
             let b = match modern_compile(text, d.clone(), &o) {
                 Ok(c) => Build::Code(c.code),
                 Err(e) if e.is_panic() => Build::Panic(e.msg()),
